@@ -302,10 +302,68 @@ def _front(tree):
     psrc = ast.unparse(mp)
     for needle in ("valid_types = list(_psplatform.pfullmem._fields)", "if memtype not in valid_types:",
                    "self.memory_info if memtype in _psplatform.pmem._fields else self.memory_full_info",
-                   "value = getattr(metrics, memtype)", "total_phymem = _TOTAL_PHYMEM or virtual_memory().total",
+                   "value = getattr(metrics, memtype)",
                    "if not total_phymem > 0:", "return value / float(total_phymem) * 100"):
         if needle not in psrc:
             raise NotRecognised("memory_percent: `%s` not found" % needle)
+    tot = [n for n in ast.walk(mp) if isinstance(n, ast.Assign) and dotted(n.targets[0]) == "total_phymem"]
+    if len(tot) != 1:
+        raise NotRecognised("memory_percent: %d assignments to total_phymem" % len(tot))
+    tsrc = ast.unparse(tot[0].value)
+    if tsrc == "_TOTAL_PHYMEM or virtual_memory().total":
+        info["uses_cache"] = True
+    elif tsrc == "virtual_memory().total":
+        info["uses_cache"] = False
+    else:
+        raise NotRecognised("memory_percent: total_phymem = %s" % tsrc)
+    return info
+
+
+def _front_vm(tree):
+    """psutil.virtual_memory(): does it store ret.total into the module global _TOTAL_PHYMEM?"""
+    fn = extract.find_def(tree, "virtual_memory")
+    body = [st for st in fn.body if not (isinstance(st, ast.Expr) and isinstance(st.value, ast.Constant))]
+    srcs = [ast.unparse(st) for st in body]
+    if "ret = _psplatform.virtual_memory()" not in srcs or srcs[-1] != "return ret":
+        raise NotRecognised("psutil.virtual_memory body: %r" % srcs)
+    rest = [x for x in srcs if x not in ("ret = _psplatform.virtual_memory()", "return ret")]
+    if rest == ["global _TOTAL_PHYMEM", "_TOTAL_PHYMEM = ret.total"] \
+            and srcs.index("_TOTAL_PHYMEM = ret.total") > srcs.index("ret = _psplatform.virtual_memory()"):
+        return True
+    if rest == []:
+        return False
+    raise NotRecognised("psutil.virtual_memory: unknown statements %r" % rest)
+
+
+def _vm(tree):
+    """_pslinux.virtual_memory(): the /proc/meminfo loop and where `total` / `free` come from."""
+    fn = extract.find_def(tree, "virtual_memory")
+    loops = [n for n in ast.walk(fn) if isinstance(n, ast.For) and ast.unparse(n.iter) == "f"]
+    if len(loops) != 1:
+        raise NotRecognised("virtual_memory: %d `for line in f` loops" % len(loops))
+    lp = loops[0]
+    if len(lp.body) != 2 or ast.unparse(lp.body[0]) != "fields = line.split()":
+        raise NotRecognised("virtual_memory loop body: %r" % [ast.unparse(x) for x in lp.body])
+    st = lp.body[1]
+    if not (isinstance(st, ast.Assign) and ast.unparse(st.targets[0]) == "mems[fields[0]]"):
+        raise NotRecognised("virtual_memory loop store: %s" % ast.unparse(st))
+    info = {"factor": _factor_of(st.value, lambda e: ast.unparse(e) == "int(fields[1])")}
+    withs = [n for n in ast.walk(fn) if isinstance(n, ast.With) and lp in n.body]
+    if len(withs) != 1 or "/meminfo" not in ast.unparse(withs[0].items[0].context_expr):
+        raise NotRecognised("virtual_memory: the loop is not over the meminfo file")
+    for var in ("total", "free"):
+        a = [n for n in fn.body if isinstance(n, ast.Assign) and dotted(n.targets[0]) == var]
+        if len(a) != 1 or not (isinstance(a[0].value, ast.Subscript) and dotted(a[0].value.value) == "mems"):
+            raise NotRecognised("virtual_memory: `%s = mems[...]` not found at top level" % var)
+        info[var] = const(a[0].value.slice)
+    rets = [n for n in ast.walk(fn) if isinstance(n, ast.Return)]
+    if len(rets) != 1 or not (isinstance(rets[0].value, ast.Call) and dotted(rets[0].value.func) == "svmem"
+                              and rets[0].value.args and dotted(rets[0].value.args[0]) == "total"):
+        raise NotRecognised("virtual_memory: return svmem(total, ...) not recognised")
+    # `total` must not be re-assigned after the subscript
+    if sum(1 for n in ast.walk(fn) if isinstance(n, (ast.Assign, ast.AugAssign))
+           and any(dotted(t) == "total" for t in (n.targets if isinstance(n, ast.Assign) else [n.target]))) != 1:
+        raise NotRecognised("virtual_memory: total is assigned more than once")
     return info
 
 
@@ -337,6 +395,8 @@ def facts(snap, F):
     maps = memo("maps", lambda: _maps(lx()))
     full = memo("full", lambda: _full_info(lx()))
     front = memo("front", lambda: _front(extract.parse_module(snap, "__init__.py")))
+    fvm = memo("fvm", lambda: _front_vm(extract.parse_module(snap, "__init__.py")))
+    vm = memo("vm", lambda: _vm(lx()))
     S, L, B, N = extract.lean_str, extract.lean_list, extract.lean_bytes, extract.lean_nat
 
     F.try_add("statmOrder", "List Nat", lambda: L(statm()[0], N),
@@ -369,3 +429,10 @@ def facts(snap, F):
               "exceptions of the roll-up that make memory_full_info fall back to smaps")
     F.try_add("groupPathIdx", "Nat", lambda: N(front()["path_idx"]), "`path = tupl[2]` in the grouping loop")
     F.try_add("groupNumsFrom", "Nat", lambda: N(front()["nums_from"]), "`nums = tupl[3:]` in the grouping loop")
+    F.try_add("pctUsesCache", "Bool", lambda: extract.lean_bool(front()["uses_cache"]),
+              "memory_percent: `total_phymem = _TOTAL_PHYMEM or virtual_memory().total` (false: always virtual_memory().total)")
+    F.try_add("vmStoresTotal", "Bool", lambda: extract.lean_bool(fvm()),
+              "psutil.virtual_memory() does `global _TOTAL_PHYMEM; _TOTAL_PHYMEM = ret.total`")
+    F.try_add("meminfoFactor", "Nat", lambda: N(vm()["factor"]), "`mems[fields[0]] = int(fields[1]) * 1024` in _pslinux.virtual_memory")
+    F.try_add("meminfoTotalKey", "List Nat", lambda: B(vm()["total"]), "`total = mems[b'MemTotal:']`")
+    F.try_add("meminfoFreeKey", "List Nat", lambda: B(vm()["free"]), "`free = mems[b'MemFree:']`")
